@@ -15,6 +15,7 @@ pub mod snap;
 pub mod tower;
 pub mod pure_c07f;
 pub mod pure_c17;
+pub mod pure_c18;
 pub mod pure_c19;
 pub mod pure_c20;
 pub mod report;
